@@ -190,6 +190,52 @@ Definition init (callers : list caller) (scr : list svc) (wn : list nat) (st : s
 
 Definition fuel_for (callers : list caller) : nat := 4 * length callers + 4.
 
+(* ---- the cache.  The locked part of a successful flight hands the document of the whole map to
+   Cache.Write (flushCacheLocked, store.go:410) and only LOGS a failure: the lookup succeeds, the
+   name stays installed.  The cache is outside the program, so its answers are an INPUT ([canswers],
+   one per Write call, missing = accepted).  This layer runs the flight model above unchanged and
+   records what was offered to the cache and what landed there. *)
+Record cstate := CS {
+  core : lstate;
+  canswers : list bool;                    (* what Cache.Write will answer, call by call *)
+  offered : list (list (doc_entry V));     (* every document handed to Cache.Write *)
+  landed : list (list (doc_entry V))       (* ... those the cache accepted *)
+}.
+
+(* the cache writes the step of the flight model makes: the Flush effects of Store.lookup_finish *)
+Definition flushes_of (s : lstate) (t : N) (e : ev) : list (effect V) :=
+  match e, fl s with
+  | EvFlight, Some f => match fscript f with
+                        | SAns _ v b => snd (lookup_finish (lst s) nm v b (Z.of_N (t / 1000)))
+                        | _ => []
+                        end
+  | _, _ => []
+  end.
+
+Fixpoint feed (fx : list (effect V)) (c : cstate) : cstate :=
+  match fx with
+  | [] => c
+  | Flush d :: r =>
+      let '(ok, rest) := match canswers c with a :: q => (a, q) | [] => (true, []) end in
+      feed r (CS (core c) rest (offered c ++ [d]) (if ok then landed c ++ [d] else landed c))
+  end.
+
+Definition cstep (c : cstate) (t : N) (e : ev) : cstate :=
+  let c' := feed (flushes_of (core c) t e) c in
+  CS (step (core c) t e) (canswers c') (offered c') (landed c').
+
+Fixpoint crun (fuel : nat) (c : cstate) : option cstate :=
+  match earliest (candidates (core c)) with
+  | None => Some c
+  | Some (t, e) => match fuel with
+                   | O => None
+                   | S k => crun k (cstep c t e)
+                   end
+  end.
+
+Definition cinit (callers : list caller) (scr : list svc) (wn : list nat) (st : store V) (answers : list bool) : cstate :=
+  CS (init callers scr wn st) answers [] [].
+
 (* ---- monitors on the observable outcome *)
 
 (* at most one request in flight: the log alternates start / end *)
